@@ -502,6 +502,8 @@ def oracle_spec(case, impl, m=None):
         if di - 1 >= len(draws): judged = False; break
         if not (draws[di - 1] >= 0): judged = False; break
         t = t + draws[di - 1]
+        if tmax is not None and t == tmax:
+            judged = False; break                      # an exact tie of a random waiting time with tmax is never judged
         if tmax is not None and t >= tmax:
             if pos < len(log):
                 bad.append(('state/beyond-tmax', 'event after t=%s >= tmax=%s: %r' % (t, tmax, log[pos])))
